@@ -105,6 +105,7 @@ fn main() {
                 "c11_decode" => checks::c11::child_decode,
                 "c10_compile" => checks::c10::child_compile,
                 "c18_encode" => checks::c18::child_encode,
+                "c16_request" => checks::c16::child_request,
                 _ => usage(),
             };
             runner::child_main(&args[3], stack_kb, f);
